@@ -271,6 +271,48 @@ def truncated_extract_intact(c):
     return runs
 
 
+def missing_parts_cli(c):
+    """C06 for multipart sets at the CLI: parts 1..k present and complete, parts k+1.. absent (a writer interrupted exactly
+    between two part files): `pna list` / `pna extract` given part 1 must fail, not report a shorter archive (seeded C06-5:
+    a NotFound on the next part file mapped to 'no more parts')"""
+    runs = 0
+    with cli.Sandbox("missparts") as sb:
+        t = sb.path("t")
+        os.makedirs(t)
+        for i in range(6):
+            with open(os.path.join(t, "f%d.bin" % i), "wb") as fh:
+                fh.write(os.urandom(300 + 37 * i))
+        for solid in (False, True):
+            d = sb.path("s" if solid else "n")
+            os.makedirs(d)
+            r = cli.run_pna(["create", os.path.join(d, "a.pna"), "--overwrite", "--store", "-r", "t", "--split", "500"] + (["--solid"] if solid else []),
+                            cwd=sb.root, timeout=60)
+            parts, k = [], 1
+            while os.path.exists(os.path.join(d, "a.part%d.pna" % k)):
+                parts.append(os.path.join(d, "a.part%d.pna" % k)); k += 1
+            if r["rc"] != 0 or len(parts) < 3:
+                raise RuntimeError("cannot create the multipart sample: rc %s, %d parts" % (r["rc"], len(parts)))
+            for keep in range(1, len(parts)):
+                e = sb.path("keep_%s_%d" % ("s" if solid else "n", keep))
+                os.makedirs(e)
+                for p in parts[:keep]:
+                    shutil.copy(p, e)
+                first = os.path.join(e, "a.part1.pna")
+                for name, args in (("list", ["list", "--solid", first]), ("extract", ["extract", first, "--out-dir", os.path.join(e, "o"), "--overwrite"]),
+                                   ("list-jsonl", ["list", "--format", "jsonl", "--unstable", first])):
+                    r = cli.run_pna(args, cwd=sb.root, timeout=30)
+                    runs += 1
+                    bad = "hangs" if r["timeout"] else "panics (exit 101)" if r["rc"] == 101 else "reports success" if r["rc"] == 0 else None
+                    if bad:
+                        c.violations.append(("cli", "`pna %s` %s on a multipart set of %d parts with only the first %d present" % (name, bad, len(parts), keep),
+                                             "archive: pna create a.pna --store%s -r t --split 500 (6 files), parts %d..%d removed\ncommand: %s\nstdout: %s\nstderr: %s"
+                                             % (" --solid" if solid else "", keep + 1, len(parts), r["cmd"].replace(sb.root, "<sandbox>"), r["out"][-200:], r["err"][-300:]), True))
+    c.cov["evaluations"] += runs
+    c.cov["cli_runs"] = c.cov.get("cli_runs", 0) + runs
+    c.hist["cli:multipart set with trailing parts missing"] = runs
+    return runs
+
+
 def chunk_list_offsets(c, archives):
     """C18: offsets printed by `pna experimental chunk list` against the model's offsets and against
     the real file offsets (the chunk found at each printed offset must be the chunk listed)"""
